@@ -27,6 +27,7 @@ CONSTANT MaxLen = %d
 CONSTANT Calls = {%s}
 CONSTANT TargetSets = {%s}
 CONSTANT IgnoreMaps = {%s}
+CONSTANT ResetCalls = {%s}
 CONSTANT EMIT = TRUE
 INVARIANT TypeOK
 INVARIANT ResetRestores
@@ -103,7 +104,21 @@ def build_pool():
                                             "source": "report(total)\n",
                                             "outputs": [{"output_type": "stream", "name": "stdout", "text": text}]}))
         return nb
+    # an output that was re-run: the old result again with the next execution count, followed by a similar one (which
+    # of the two the old output is paired with depends on whether execution counts are looked at)
+    def reran(count, second):
+        nb = copy.deepcopy(A)
+        res = lambda ec, text: nbformat.v4.new_output("execute_result", data={"text/plain": text}, execution_count=ec)  # noqa
+        # (the second text is approximately, not strictly, similar to the first: difflib ratio between 0.7 and 0.95)
+        text, other = concretize.source_variant(1, 0), concretize.source_variant(1, 2)
+        nb.cells[0].outputs = [res(count, text)] + ([res(count + 1, other)] if second else [])
+        nb.cells[0].execution_count = count + (1 if second else 0)
+        return nb
+    # both sides rewrite the same lines of one source; merged with the input strategy "fail" this raises (by design)
+    ab = lambda **kw: concretize.concrete(dict(json.loads(json.dumps(base)), cells=[dict(base["cells"][0], **kw)] + base["cells"][1:]))  # noqa
     pool = {
+        "d_ecshift": ("diff", reran(1, False), reran(2, True)),
+        "m_fail": ("mergefail", A, ab(src=5), ab(src=6)),
         "m_ins": ("merge", A, appended("total: 41\n"), appended("total: 42\nsecond line\n")),
         "d_vendor": ("diff", ven1, ven2),
         "d_raw": ("diff", A, rawA), "d_plain": ("diff", A, B), "d_rev": ("diff", B, A), "d_lol": ("diff", lol1, lol2), "d_loo": ("diff", loo1, loo2),
@@ -163,7 +178,8 @@ def do_call(name):
             return "ok:" + canon(to_plain(diff_notebooks(a, b)))
         from nbdime.merging.notebooks import merge_notebooks
         b, l, r = (copy.deepcopy(x) for x in POOL[name][1:])
-        merged, dec = merge_notebooks(b, l, r, mergedrv.strategy_args("mergetool"))
+        args = mergedrv.strategy_args("mergetool", "fail") if kind == "mergefail" else mergedrv.strategy_args("mergetool")
+        merged, dec = merge_notebooks(b, l, r, args)
         return "ok:" + canon([to_plain(merged), json.loads(json.dumps(dec))])
     except Exception as e:  # noqa
         t, w = common.exc_info(e)
@@ -258,7 +274,8 @@ def run():
     os.chdir(work)
     if chk.quick:
         maxlen = 3
-        calls = ["d_plain", "d_raw", "d_vendor", "d_lol", "d_loo", "d_obj", "d_swap", "d_swaprev", "m_lol", "m_ins"]
+        calls = ["d_plain", "d_raw", "d_vendor", "d_lol", "d_loo", "d_obj", "d_swap", "d_swaprev", "m_lol", "m_ins", "m_plain",
+                 "m_fail", "d_ecshift"]
         targets = [ALLCATS, ("sources",), ("sources", "outputs", "attachments", "metadata", "id")]
         maps = ["cellmeta-keys", "nbmeta-true"]
     else:
@@ -268,15 +285,16 @@ def run():
                    ("sources", "attachments", "id", "details"), ("outputs", "metadata")]
         maps = sorted(MAPS)
     q = lambda xs: ", ".join('"%s"' % x for x in xs)  # noqa
-    cfg = CFG % (maxlen, q(calls), ", ".join("{%s}" % q(t) for t in targets), q(maps))
+    resetcalls = ["d_ecshift"] if chk.quick else ["d_ecshift", "d_plain", "m_ins"]
+    cfg = CFG % (maxlen, q(calls), ", ".join("{%s}" % q(t) for t in targets), q(maps), q(resetcalls))
     r = tlc.run("Process", cfg, workers=1, timeout=3000, name="Process", xmx="8g")
     if r.invariant_violated or r.error:
         raise tlc.TLCError("Process: %s\n%s" % (r.error, "\n".join(l for l in r.out.splitlines() if not l.startswith('"'))[-2000:]))
     chk.add_model(r, "Process MaxLen=%d, %d calls, %d target sets, %d ignore maps" % (maxlen, len(calls), len(targets), len(maps)))
     hists = r.json_lines("HIST")
     # only maximal histories need replaying (every prefix is replayed on the way)
-    maximal = [h for h in hists if len(h) == maxlen]
-    cap = 6000 if chk.quick else 10000
+    maximal = [h for h in hists if len(h) >= maxlen]        # (a reset glued to a call is two entries in one step)
+    cap = 11000
     if len(maximal) > cap:
         chk.notes["maximal_histories_enumerated"] = len(maximal)
         common.rng("c12").shuffle(maximal)
